@@ -5,5 +5,5 @@ From Coq Require Import Extraction ExtrOcamlBasic.
 From NM Require Import Engine.
 Extraction Language OCaml.
 From NM Require Import EngineSpec Diag Scope Paths MiniGo Flow Guard Contract Keys Infer Nonce Nolint RichFlow.
-Extraction "engine_model.ml" run_pkgs analyze_pkg spec_pkgs diagnostics_tf shown_places last_cpos in_scope_flags rel_to_cwd portion_after_sep
+Extraction "engine_model.ml" run_pkgs analyze_pkg spec_pkgs diagnostics_tf shown_places last_cpos in_scope_flags rel_to_cwd abs_from_cwd portion_after_sep
   site_of key_repr infer loop infer_checked final_stable plain semiplain wf_fn wf_cfg analyze_program wf_program ctr_arity run_program panic_of enc guarded infer_sem impls_plain nrun nolint_contains propagate wf_rcfg.
